@@ -6,6 +6,7 @@ from fractions import Fraction
 
 from .. import dag, qk
 from ..arr import Arr
+from ..core import pmap
 from ..pe import PE, Obj, PERaise
 from ..src import load, stmt_text
 
@@ -38,69 +39,91 @@ def _same(a, b, seed):
     return dag.is_zero_fp([dag.sub(x, y) for x, y in zip(fa, fb)], seed, 2)
 
 
+ITER = ("ITERATE_EXACT", "ITERATE_EXPANDED", "PERTURBATIVE_EXACT", "PERTURBATIVE_EXPANDED")
+PERT = ("PERTURBATIVE_EXACT", "PERTURBATIVE_EXPANDED")
+
+
+def pmap_count(chk, fn, cases):
+    """pmap, returning the number of obligations the workers recorded"""
+    n = [0]
+    orig = chk.decide
+
+    def counting(*a, **k):
+        n[0] += 1
+        return orig(*a, **k)
+
+    chk.decide = counting
+    try:
+        pmap(chk, fn, cases, jobs=14)
+    finally:
+        del chk.decide
+    return n[0]
+
+
+def _diff_case(rec, case):
+    src, pe = qk.make_pe()
+    M, SV = qk.enums(pe)
+    fq = src.func(f"{qk.QK}.quad_ker_qcd")
+    fe = src.func(f"{qk.QK}.quad_ker_qed")
+    if case[0] == "qcd-methods":
+        _, n, mname, m0, m1 = case
+        base = dict(order=(n, 0), mode0=m0, mode1=m1, method=M[mname], nf=4, sv_mode=SV["unvaried"])
+        # iteration count
+        if mname not in ITER or m0 != 100:
+            a = qk.qcd(pe, its=1, **base)
+            b = qk.qcd(pe, its=7, **base)
+            ok, info = _same(a, b, rec.seed)
+            rec.decide(ok, "iterations-irrelevant-for-non-iterating-methods", fq.qname,
+                       f"order={n}, {mname}, sector {m0}: the kernel changes with ev_op_iterations although the method does "
+                       f"not iterate", where=fq.where, instance=f"{n},{mname},{m0}", how="differential PE + PIT")
+        # expansion order
+        if mname not in PERT or m0 != 100:
+            a = qk.qcd(pe, its=2, max_order=(n, 0), **base)
+            b = qk.qcd(pe, its=2, max_order=(n + 4, 0), **base)
+            ok, info = _same(a, b, rec.seed)
+            rec.decide(ok, "max-order-irrelevant-for-non-perturbative-methods", fq.qname,
+                       f"order={n}, {mname}, sector {m0}: the kernel changes with ev_op_max_order although the method is not "
+                       f"perturbative", where=fq.where, instance=f"{n},{mname},{m0}", how="differential PE + PIT")
+    elif case[0] == "qcd-n3lo":
+        # N3LO variation / parametrisation below N3LO
+        _, n, m0, m1 = case
+        base = dict(order=(n, 0), mode0=m0, mode1=m1, method=M["TRUNCATED"], nf=4, sv_mode=SV["unvaried"])
+        ref = qk.qcd(pe, var=qk.VAR0, fh=True, **base)
+        for var, fh in (((1, 2, 1, 2, 1, 2, 1), True), (qk.VAR0, False), ((2, 2, 2, 2, 2, 2, 2), False)):
+            b = qk.qcd(pe, var=var, fh=fh, **base)
+            ok, info = _same(ref, b, rec.seed)
+            rec.decide(ok, "n3lo-settings-irrelevant-below-n3lo", fq.qname,
+                       f"order={n}, sector {m0}: the kernel depends on n3lo_ad_variation/use_fhmruvv below N3LO", where=fq.where,
+                       instance=f"{n},{m0},{var},{fh}", how="differential PE + PIT")
+    else:
+        _, n, m, m0, m1 = case
+        base = dict(order=(n, m), mode0=m0, mode1=m1, method=M["ITERATE_EXACT"], nf=4, sv_mode=SV["unvaried"], its=1)
+        ref = qk.qed(pe, var=qk.VAR0, fh=True, **base)
+        b = qk.qed(pe, var=(1, 2, 1, 2, 1, 2, 1), fh=False, **base)
+        ok, info = _same(ref, b, rec.seed)
+        rec.decide(ok, "n3lo-settings-irrelevant-below-n3lo", fe.qname,
+                   f"order=({n},{m}), sector {m0}: the QED kernel depends on n3lo settings below N3LO", where=fe.where,
+                   instance=f"({n},{m}),{m0}", how="differential PE + PIT")
+        # expansion order never applies with QED
+        b2 = qk.qed(pe, max_order=(3, 0), **base)
+        ok, info = _same(ref, b2, rec.seed)
+        rec.decide(ok, "max-order-irrelevant-for-non-perturbative-methods", fe.qname,
+                   f"order=({n},{m}), sector {m0}: the QED kernel depends on ev_op_max_order", where=fe.where,
+                   instance=f"({n},{m}),{m0}", how="differential PE + PIT")
+
+
 def run(chk):
     src, pe = qk.make_pe()
     M, SV = qk.enums(pe)
     chk.rule_text = "kernel(setting=v1) == kernel(setting=v2) as formulas, in every configuration where the setting is documented irrelevant"
     fq = src.func(f"{qk.QK}.quad_ker_qcd")
     fe = src.func(f"{qk.QK}.quad_ker_qed")
-    ITER = ("ITERATE_EXACT", "ITERATE_EXPANDED", "PERTURBATIVE_EXACT", "PERTURBATIVE_EXPANDED")
-    PERT = ("PERTURBATIVE_EXACT", "PERTURBATIVE_EXPANDED")
     sectors = ((100, 21), (10201, 0))
-    n_inst = 0
-    for n in (1, 2, 3, 4):
-        for mname, mem in M.items():
-            for (m0, m1) in sectors:
-                base = dict(order=(n, 0), mode0=m0, mode1=m1, method=mem, nf=4, sv_mode=SV["unvaried"])
-                # iteration count
-                if mname not in ITER and not (n == 1):
-                    pass
-                if mname not in ITER or m0 != 100:
-                    a = qk.qcd(pe, its=1, **base)
-                    b = qk.qcd(pe, its=7, **base)
-                    ok, info = _same(a, b, chk.seed)
-                    n_inst += 1
-                    chk.decide(ok, "iterations-irrelevant-for-non-iterating-methods", fq.qname,
-                               f"order={n}, {mname}, sector {m0}: the kernel changes with ev_op_iterations although the method does "
-                               f"not iterate", where=fq.where, instance=f"{n},{mname},{m0}", how="differential PE + PIT")
-                # expansion order
-                if mname not in PERT or m0 != 100:
-                    a = qk.qcd(pe, its=2, max_order=(n, 0), **base)
-                    b = qk.qcd(pe, its=2, max_order=(n + 4, 0), **base)
-                    ok, info = _same(a, b, chk.seed)
-                    n_inst += 1
-                    chk.decide(ok, "max-order-irrelevant-for-non-perturbative-methods", fq.qname,
-                               f"order={n}, {mname}, sector {m0}: the kernel changes with ev_op_max_order although the method is not "
-                               f"perturbative", where=fq.where, instance=f"{n},{mname},{m0}", how="differential PE + PIT")
-    # N3LO variation / parametrisation below N3LO
-    for n in (1, 2, 3):
-        for (m0, m1) in sectors + ((10200, 0), (10101, 0)):
-            base = dict(order=(n, 0), mode0=m0, mode1=m1, method=M["TRUNCATED"], nf=4, sv_mode=SV["unvaried"])
-            ref = qk.qcd(pe, var=qk.VAR0, fh=True, **base)
-            for var, fh in (((1, 2, 1, 2, 1, 2, 1), True), (qk.VAR0, False), ((2, 2, 2, 2, 2, 2, 2), False)):
-                b = qk.qcd(pe, var=var, fh=fh, **base)
-                ok, info = _same(ref, b, chk.seed)
-                n_inst += 1
-                chk.decide(ok, "n3lo-settings-irrelevant-below-n3lo", fq.qname,
-                           f"order={n}, sector {m0}: the kernel depends on n3lo_ad_variation/use_fhmruvv below N3LO", where=fq.where,
-                           instance=f"{n},{m0},{var},{fh}", how="differential PE + PIT")
-    for n, m in ((1, 1), (2, 2), (3, 1)):
-        for (m0, m1) in ((21, 22), (10200, 10204), (10102, 0)):
-            base = dict(order=(n, m), mode0=m0, mode1=m1, method=M["ITERATE_EXACT"], nf=4, sv_mode=SV["unvaried"], its=1)
-            ref = qk.qed(pe, var=qk.VAR0, fh=True, **base)
-            b = qk.qed(pe, var=(1, 2, 1, 2, 1, 2, 1), fh=False, **base)
-            ok, info = _same(ref, b, chk.seed)
-            n_inst += 1
-            chk.decide(ok, "n3lo-settings-irrelevant-below-n3lo", fe.qname,
-                       f"order=({n},{m}), sector {m0}: the QED kernel depends on n3lo settings below N3LO", where=fe.where,
-                       instance=f"({n},{m}),{m0}", how="differential PE + PIT")
-            # expansion order never applies with QED
-            b2 = qk.qed(pe, max_order=(3, 0), **base)
-            ok, info = _same(ref, b2, chk.seed)
-            n_inst += 1
-            chk.decide(ok, "max-order-irrelevant-for-non-perturbative-methods", fe.qname,
-                       f"order=({n},{m}), sector {m0}: the QED kernel depends on ev_op_max_order", where=fe.where,
-                       instance=f"({n},{m}),{m0}", how="differential PE + PIT")
+    # independent differential extractions: run in parallel, obligations replayed in order
+    cases = [("qcd-methods", n, mname, m0, m1) for n in (1, 2, 3, 4) for mname in M for (m0, m1) in sectors]
+    cases += [("qcd-n3lo", n, m0, m1) for n in (1, 2, 3) for (m0, m1) in sectors + ((10200, 0), (10101, 0))]
+    cases += [("qed", n, m, m0, m1) for n, m in ((1, 1), (2, 2), (3, 1)) for (m0, m1) in ((21, 22), (10200, 10204), (10102, 0))]
+    n_inst = pmap_count(chk, _diff_case, cases)
     chk.floor("differential kernel extractions", n_inst, 100)
 
     # ---- electromagnetic running flag without QED -----------------------------------------------------------
